@@ -209,6 +209,10 @@ func defaultStreamMapFilter[T any](key string, isr streamReader) (streamReader, 
 		}
 		vv, ok_ := v.(T)
 		if !ok_ {
+			if v == nil && generic.TypeOf[T]().Kind() == reflect.Interface {
+				// nil is the zero value of an interface-typed input, as for a value handed over without a stream
+				return t, nil
+			}
 			return t, fmt.Errorf(
 				"[defaultStreamMapFilter]fail, key[%s]'s value type[%v] isn't expected type[%s]",
 				key, reflect.TypeOf(v), // nil for an untyped nil value
